@@ -65,6 +65,8 @@ structure Func where
   params : List (String × Default)
   body : List Stmt
   scope : Nat
+  /-- the defining file went through the optimiser (its statements are the optimised ones whoever calls) -/
+  opt : Bool := false
   deriving Repr, Inhabited
 
 structure St where
@@ -73,6 +75,10 @@ structure St where
   funcs : List Func := []
   scopes : List Scope := []
   pool : List (Nat × Val) := []
+  /-- files that `subinclude()` can name: label ↦ statements (C17/C18) -/
+  files : List (String × Program) := []
+  /-- `interpreter.subincludes`: label ↦ the frozen scope of the file, interpreted once -/
+  subs : List (String × Nat) := []
   deriving Repr, Inhabited
 
 abbrev EM := StateT St (Except String)
